@@ -263,6 +263,9 @@ func (t *tr) evalUnary(e *ast.UnaryExpr) *val {
 		if x.t.k != kBool {
 			t.fail("! on %s", x.t)
 		}
+		if y, ok := stripNegb(x.e); ok { // double negation
+			return &val{t: tBool, e: y}
+		}
 		return &val{t: tBool, e: "negb " + par(x.e)}
 	case token.AND:
 		if cl, ok := e.X.(*ast.CompositeLit); ok {
